@@ -29,7 +29,12 @@ def getattr_v(I, ctx, fr, v, name, node):
                 return h.fields[name]
             if name == '__class__':
                 return I.engine.class_value(h.cls)
-            return I.engine.class_attr(ctx, fr, h.cls, name, v, node)
+            r = I.engine.class_attr(ctx, fr, h.cls, name, v, node)
+            if r is None and h.ftypes and not fr.spec and not name.startswith('__'):
+                # an object described by a contract (typed field list): a field the contract does not list is
+                # not known to be absent -- the code reads something the contract says nothing about
+                raise Unsupported('field %r of the %s object is not described by the contract' % (name, h.cls.rsplit('.', 1)[-1]), node)
+            return r
         meths = {HList: LIST_METHODS, HSet: SET_METHODS, HDict: DICT_METHODS}[type(h)]
         if name in meths:
             return VMethod(v, name)
@@ -108,6 +113,18 @@ def getattr_name(n):
 # calls
 
 
+def _run_model(fn, name, node, *a, **kw):
+    """A python model (spec function, dependency summary) that cannot digest the values it is handed
+    means "this call is outside what the model describes", not a checker crash."""
+    from .state import PathEnd, ReturnSig, RaiseSig, BreakSig, ContinueSig, ContractError
+    try:
+        return fn(*a, **kw)
+    except (Unsupported, PathEnd, ReturnSig, RaiseSig, BreakSig, ContinueSig, ContractError):
+        raise
+    except (TypeError, AttributeError, KeyError, IndexError, ValueError, z3.Z3Exception) as e:
+        raise Unsupported('model of %s does not cover this call (%s: %s)' % (name, type(e).__name__, str(e)[:120]), node)
+
+
 def call(I, ctx, fr, fv, args, kwargs, node, star):
     from . import models as M
     from .interp import VSpecFn
@@ -119,7 +136,7 @@ def call(I, ctx, fr, fv, args, kwargs, node, star):
             # spec functions are total: an optional argument stands for its value (the
             # formula guards the None case itself)
             args = [a.val if isinstance(a, VOpt) else a for a in args]
-        return fv.fn(I, ctx, *args, **kwargs)
+        return _run_model(fv.fn, fv.name, node, I, ctx, *args, **kwargs)
     if fr.spec and not isinstance(fv, (VBuiltin, VClass, VMethod, VRepoFunc, VBound)):
         raise Unsupported('call of %r inside a spec expression' % (fv,), node)
     if isinstance(fv, VRepoFunc):
